@@ -15,8 +15,10 @@ TRUSTED = [
     "models: lean/SRVerif/Model/{Rec,LabelDP,Solvers}.lean; specification: lean/SRVerif/Spec/Opt.lean",
 ]
 ASSUMPTIONS = ["coherent cost vectors; leaf syntenies non-empty with distinct families"]
-OPEN = ["C03_statement (optimal among ALL labellings: the canonical restriction loses nothing) is stated, not "
-        "proved; it is explored by this check against the brute-force specification on the quantifier scope"]
+OPEN = [
+    "C03_kinds_faithful_statement (DP edge charges = evaluator's subset tests on materialised contents)",
+    'C03_statement (restricting to canonical labellings loses nothing); explored against the brute-force specification over every labelling',
+]
 
 CORPUS = [
     # fixed: F-USPFS-ALIAS
